@@ -295,6 +295,141 @@ func goroutineDump() string {
 	return strings.Join(keep, "\n\n")
 }
 
+// c16CancelledFinish: a session transaction that is finished with a context
+// that was cancelled while it ran is finished all the same (the session stays
+// open): the next write of another client proceeds.
+func c16CancelledFinish(client lungo.IClient) error {
+	coll := client.Database("probe").Collection("cc")
+	for variant := 0; variant < 3; variant++ {
+		sess, err := client.StartSession()
+		if err != nil {
+			return fmt.Errorf("StartSession failed: %v", err)
+		}
+		cctx, ccancel := context.WithCancel(context.Background())
+		what := ""
+		switch variant {
+		case 0, 1:
+			what = "WithTransaction whose context is cancelled inside the callback (callback returns nil)"
+			if variant == 1 {
+				what = "WithTransaction whose context is cancelled inside the callback (callback returns the context error)"
+			}
+			_, _ = sess.WithTransaction(cctx, func(sc lungo.ISessionContext) (interface{}, error) {
+				_, _ = coll.InsertOne(sc, bson.D{{Key: "v", Value: int32(variant)}})
+				ccancel()
+				if variant == 1 {
+					return nil, cctx.Err()
+				}
+				return nil, nil
+			})
+		case 2:
+			what = "AbortTransaction with a cancelled context"
+			if err := sess.StartTransaction(); err != nil {
+				return fmt.Errorf("StartTransaction failed: %v", err)
+			}
+			_ = lungo.WithSession(cctx, sess, func(sc lungo.ISessionContext) error {
+				_, _ = coll.InsertOne(sc, bson.D{{Key: "v", Value: int32(variant)}})
+				return nil
+			})
+			ccancel()
+			_ = sess.AbortTransaction(cctx)
+		}
+		ccancel()
+		pctx, pcancel := context.WithTimeout(context.Background(), 3*time.Second)
+		t0 := time.Now()
+		_, perr := client.Database("probe").Collection("p2").InsertOne(pctx, bson.D{{Key: "v", Value: int32(variant)}})
+		pcancel()
+		sess.EndSession(context.Background())
+		if perr != nil {
+			return fmt.Errorf("wedged: after %s the writer slot was not released: the next write failed after %v: %v\n%s", what, time.Since(t0).Round(time.Millisecond), perr, goroutineDump())
+		}
+	}
+	return nil
+}
+
+// c16ParkedNext: a blocking Next that has found no event and is about to
+// wait (it has released the stream's lock) is woken by a Close, and by a
+// commit, that happen exactly then.
+func c16ParkedNext(client lungo.IClient) error {
+	coll := client.Database("probe").Collection("pn")
+	for variant := 0; variant < 2; variant++ {
+		st, err := coll.Watch(context.Background(), bson.A{})
+		if err != nil {
+			return fmt.Errorf("Watch failed: %v", err)
+		}
+		parked := make(chan struct{})
+		resume := make(chan struct{})
+		var once sync.Once
+		hk := func(point string) {
+			if point == "stream.beforeWait" {
+				once.Do(func() {
+					close(parked)
+					<-resume
+				})
+			}
+		}
+		lungo.VerifHook.Store(&hk)
+		nctx, ncancel := context.WithTimeout(context.Background(), 60*time.Second)
+		got := make(chan bool, 1)
+		go func() { got <- st.Next(nctx) }()
+		fail := func(format string, a ...interface{}) error {
+			lungo.VerifHook.Store(nil)
+			dump := goroutineDump()
+			ncancel()
+			_ = st.Close(context.Background())
+			return fmt.Errorf(format+"\n%s", append(a, dump)...)
+		}
+		select {
+		case <-parked:
+		case <-time.After(tLive):
+			close(resume)
+			return fail("wedged: a blocking Next on an idle stream did not reach its wait within %v", tLive)
+		}
+		acted := make(chan error, 1)
+		go func() {
+			if variant == 0 {
+				acted <- st.Close(context.Background())
+				return
+			}
+			ictx, icancel := context.WithTimeout(context.Background(), 3*time.Second)
+			defer icancel()
+			_, ierr := coll.InsertOne(ictx, bson.D{{Key: "v", Value: int32(variant)}})
+			acted <- ierr
+		}()
+		select {
+		case aerr := <-acted:
+			if aerr != nil {
+				close(resume)
+				return fail("while a Next was about to wait, the concurrent call failed: %v", aerr)
+			}
+		case <-time.After(tLive):
+			close(resume)
+			return fail("wedged: a call concurrent with a Next that is about to wait did not return within %v", tLive)
+		}
+		close(resume)
+		lungo.VerifHook.Store(nil)
+		select {
+		case ok := <-got:
+			if variant == 0 && ok {
+				ncancel()
+				return fmt.Errorf("Next returned an event after the stream was closed")
+			}
+			if variant == 1 && !ok {
+				ncancel()
+				_ = st.Close(context.Background())
+				return fmt.Errorf("Next returned false (%v) although an event was committed while it was about to wait", st.Err())
+			}
+		case <-time.After(tLive):
+			if variant == 0 {
+				return fail("wedged (lost wake-up): Stream.Close ran while a blocking Next was about to wait; Next is still blocked after %v", tLive)
+			}
+			return fail("wedged (lost wake-up): an event was committed while a blocking Next was about to wait; Next is still blocked after %v", tLive)
+		}
+		ncancel()
+		_ = st.Close(context.Background())
+	}
+	return nil
+}
+
 func runC16Once(c bson.D, x *Ctx) error {
 	old := runtime.GOMAXPROCS(asI(getD(c, "procs")))
 	defer runtime.GOMAXPROCS(old)
@@ -394,6 +529,12 @@ func runC16Once(c bson.D, x *Ctx) error {
 		cancel()
 		if err != nil {
 			return fmt.Errorf("wedged: after all scripts finished (every transaction committed, aborted or its session ended) a probe write failed after %v: %v\n%s", time.Since(t0).Round(time.Millisecond), err, goroutineDump())
+		}
+		if err := c16CancelledFinish(client); err != nil {
+			return err
+		}
+		if err := c16ParkedNext(client); err != nil {
+			return err
 		}
 		switch asI(getD(c, "finale")) {
 		case 1:
